@@ -13,6 +13,13 @@ L3 : written from the property statement with Fractions / brute force only (no L
      beta-binomial law (Fractions), positive, sum 1, continuous as F -> 0; matrices row-stochastic and non-negative, mean
      preserving; no-call and enough-coverage probabilities in [0,1]; corrected total <= uncorrected total, entries >= 0;
      deep coverage: corrected = plain projection up to the explicit 2^-D bound.
+History: every single-function case starts from freshly reloaded LowPass module state, and `check_history` builds several
+     low-pass functions in ONE process with the same population names (same sizes/options but different coverage; same
+     coverage but different Fx / sizes / threshold / nsim / model), evaluates them in shuffled orders and repeatedly, and
+     requires every result to equal (a) the same function built and evaluated alone (module reloaded, or a fresh
+     interpreter), (b) the exact model fed that function's OWN coverage (K op `corrected:history`), (c) closure and, for
+     deeply covered data, the deep-coverage identity.  The implementation's precalculated tables are observed by wrapping
+     the module-level `low_cov_precalc_…` (not by looking into a closure), so it does not matter where the code caches them.
 """
 import math, itertools, warnings
 import numpy as np
@@ -927,6 +934,8 @@ def run(chk, ctx):
                 'probabilities summing to exactly 1; sizes n_sequenced 2..20 even, n_subsampling from {same, 2, n-2, random even}; corrected model: '
                 '1-3 populations, sim_threshold in {1 (analytic), 1e-2/0.25/0.5 (mixed), 0 (simulated)}, model spectra {neutral, random, sparse, '
                 'one entry, spike} with masked corners (+ random extra masks), fixed rng seeds for the simulations; deep-coverage cases (all depths >= 40); '
+                'sessions of 2-5 low-pass functions sharing population names in one process (kinds: coverage / Fx / nsub / nseq / threshold / nsim / model differs, mixed), '
+                'built up-front or lazily, evaluated in shuffled order with repeats, each compared with itself evaluated alone (reload or fresh interpreter); '
                 'non-trivial = distinct (helper, size class, F class, coverage class, regime, dimension)')
     chk.unproved = [
         'round-off: agreement of the float code with the exact model/oracle is numerical (1e-9 of the array scale); for 0 < F < 2^-18 the pinned '
